@@ -459,8 +459,10 @@ def _run_keep(it, f, o, args, conn_key=False):
 
 
 def _output_obj(repo, n, kinds, conn, static=False):
+    from ..absbase import seed_from_init
     c = repo.cls("Output")
     o = Obj(cls=c, label="Output")
+    seed_from_init(FinamInterp(repo), c, o, {"name": "out", "info": None, "static": static})
     o.fields.update(
         data=[(T(i) if not static else None, P(i, kinds[i])) for i in range(n)],
         name="out", _name="out", logger=Logger(label="logger"), _total_mem=Sym("mem0"),
